@@ -45,6 +45,13 @@ type Op struct {
 	// synchronous handlers of this publish, every handler of the other
 	// publishes - is owed what it is always owed.
 	Dead bool `json:"dead,omitempty"`
+	// Mid (pub): published with a context of its own that the first
+	// synchronous context-aware handler receiving the event cancels (and the
+	// publisher cancels on return at the latest).  Handlers behind the
+	// cancelling one may or may not take part in that publish; registrations
+	// keep their state: a Once handler that ran is retired, one that did not
+	// is still there.
+	Mid bool `json:"mid,omitempty"`
 }
 
 type Case struct {
@@ -96,7 +103,22 @@ type pubRec struct {
 	filters   map[regKey][]int64
 	handlers  map[regKey][]int64
 	dead      bool // its context was cancelled as soon as the publish had returned
+	mid       bool // ... or already by a synchronous handler of the publish
+	cancelAt  int64 // mid: stamp of the handler invocation that cancelled (0 = none did)
 }
+
+// claimable: the (cancelled) publish dp can have claimed the asynchronous Once
+// registration k without running it - its filter was consulted before the
+// context was cancelled.
+func (dp *pubRec) claimable(k regKey) bool {
+	fs := dp.filters[k]
+	if !dp.dead || len(fs) == 0 || len(dp.handlers[k]) != 0 {
+		return false
+	}
+	return !dp.mid || dp.cancelAt == 0 || fs[0] < dp.cancelAt
+}
+
+type midKey struct{}
 
 type hist struct {
 	mu    sync.Mutex
@@ -149,14 +171,27 @@ func (w *world) OnHandler(ti, slot int, ctxAware bool, ctx context.Context, id i
 	}
 	k := regKey{t, slot, ctxAware}
 	w.h.mu.Lock()
-	if p := w.h.pubs[id]; p != nil {
-		p.handlers[k] = append(p.handlers[k], w.h.stamp())
-	}
 	async := false
 	if r := w.h.regs[k]; r != nil {
 		async = r.async
 	}
+	var cancel context.CancelFunc
+	if p := w.h.pubs[id]; p != nil {
+		at := w.h.stamp()
+		p.handlers[k] = append(p.handlers[k], at)
+		if p.mid && !async && ctxAware && ctx != nil {
+			if f, ok := ctx.Value(midKey{}).(context.CancelFunc); ok {
+				cancel = f
+				if p.cancelAt == 0 {
+					p.cancelAt = at
+				}
+			}
+		}
+	}
 	w.h.mu.Unlock()
+	if cancel != nil {
+		cancel()
+	}
 	if !async {
 		w.yield("handler")
 	}
@@ -224,7 +259,11 @@ func (w *world) execOp(task, idx int, op Op) {
 		rec.call = p.call
 		pctx := context.Background()
 		var dead context.CancelFunc
-		if op.Dead {
+		if op.Mid {
+			pctx, dead = context.WithCancel(pctx)
+			pctx = context.WithValue(pctx, midKey{}, dead)
+			p.dead, p.mid = true, true
+		} else if op.Dead {
 			pctx, dead = context.WithCancel(pctx)
 			p.dead = true
 		} else if op.Live {
@@ -462,12 +501,10 @@ func check(c *Case, w *world, o *vkit.Outcome) {
 				// of them has returned
 				var lo, hi int64 = 1 << 62, -1
 				for _, dp := range h.pubs {
-					if dp == skipPub || !dp.dead || len(dp.handlers[r.key]) != 0 || !accepts(r.filter, dp.id) {
+					if dp == skipPub || !dp.claimable(r.key) || !accepts(r.filter, dp.id) {
 						continue
 					}
-					if fs := dp.filters[r.key]; len(fs) > 0 {
-						lo, hi = min(lo, fs[0]), max(hi, dp.ret)
-					}
+					lo, hi = min(lo, dp.filters[r.key][0]), max(hi, dp.ret)
 				}
 				if hi >= 0 {
 					out = append(out, removal{lo, hi, "once-claim-by-a-cancelled-publish"})
@@ -511,7 +548,7 @@ func check(c *Case, w *world, o *vkit.Outcome) {
 			if nh == 1 && (nf != 1 || !acc) {
 				fail("%s: the handler ran although its filter was not called or rejects the event (filter calls %d, accepts=%v)", desc, nf, acc)
 			}
-			mayDrop := p.dead && r.async
+			mayDrop := (p.dead && r.async) || p.mid
 			if mayDrop && nf == 1 && acc && nh != 1 {
 				o.Class("asynchronous_delivery_of_a_cancelled_publish_dropped")
 			}
@@ -524,7 +561,7 @@ func check(c *Case, w *world, o *vkit.Outcome) {
 			rm := removalsOf(r, nil, p)
 			in := r.subRet < p.call && !calledBefore(rm, p.ret)
 			out := r.subCall > p.ret || returnedBefore(rm, p.call)
-			if in && nf != 1 {
+			if in && nf != 1 && !p.mid {
 				fail("%s: the subscription returned before the publish was called and no removal had started when the publish returned, yet the registration was not part of the delivery (filter calls %d)", desc, nf)
 			}
 			if out && (nf != 0 || nh != 0) {
@@ -557,7 +594,7 @@ func check(c *Case, w *world, o *vkit.Outcome) {
 		}
 		q := fs[0].pub
 		for _, p := range h.pubs {
-			if p == q || p.id >= probeBase || p.t != r.key.t || !(p.ret < q.call) || !accepts(r.filter, p.id) {
+			if p == q || p.mid || p.id >= probeBase || p.t != r.key.t || !(p.ret < q.call) || !accepts(r.filter, p.id) {
 				continue
 			}
 			if r.subRet < p.call && !calledBefore(removalsOf(r, nil, p), p.ret) {
@@ -681,7 +718,7 @@ func claimedByDead(h *hist, r *regInfo) bool {
 		return false
 	}
 	for _, dp := range h.pubs {
-		if dp.dead && len(dp.filters[r.key]) > 0 && len(dp.handlers[r.key]) == 0 && accepts(r.filter, dp.id) {
+		if dp.claimable(r.key) && accepts(r.filter, dp.id) {
 			return true
 		}
 	}
